@@ -13,6 +13,7 @@ import AcnModel.Feas
 import AcnModel.Gen.Consts
 import AcnProofs.Lemmas.FeasSums
 import AcnProofs.Lemmas.FeasAgree
+import AcnProofs.Lemmas.FeasComplex
 import Mathlib.Tactic
 
 namespace Acn.C06
@@ -114,6 +115,22 @@ theorem net_feasible_iff_fin {m n T : Nat} (M : Fin m → Fin n → K) (lim : Fi
     simp only at hc
     rw [hc, hw, hw]
     exact this
+
+/-- **the phasor definition itself**, over ℝ with `c_j = cos φ_j`, `s_j = sin φ_j`: feasible ⇔ for
+    every constraint `i` and period `t`, `‖Σ_j M i j · S j t · e^{iφ_j}‖ ≤ lim i + max vt (rt · lim i)`
+    (a negative bound is never met, so that case needs no separate clause). -/
+theorem net_feasible_iff_phasor {m n T : Nat} (M : Fin m → Fin n → ℝ) (lim : Fin m → ℝ)
+    (φ : Fin n → ℝ) (vt rt : ℝ) (S : Fin n → Fin T → ℝ) (hm : 0 < m) (hn : 0 < n) :
+    netFeasible (List.ofFn fun i => List.ofFn (M i)) (List.ofFn lim)
+        (List.ofFn fun j => Real.cos (φ j)) (List.ofFn fun j => Real.sin (φ j))
+        vt rt (List.ofFn fun j => List.ofFn (S j)) = true ↔
+      ∀ (i : Fin m) (t : Fin T),
+        ‖∑ j, ((M i j * S j t : ℝ) : ℂ) * Complex.exp ((φ j : ℂ) * Complex.I)‖
+          ≤ lim i + max vt (rt * lim i) := by
+  rw [net_feasible_iff_fin M lim _ _ vt rt S hm hn]
+  refine forall_congr' fun i => forall_congr' fun t => ?_
+  rw [norm_le_iff_sq, phasor_sum_re, phasor_sum_im]
+  simp only [mul_assoc]
 
 /-! ### 2. the three checkers agree -/
 
@@ -314,20 +331,6 @@ theorem linear_conservative_entry (net : Net K) (hwf : net.WF) (hu : UnitPhasors
   have := Net.isFeasible_eq_view net hwf (densify net.stations sched len) false vt? rt?
   rw [key] at this
   simpa using this.symm
-
-/-- the unrepaired network-side linear aggregate `|Σ a_j x_j|` is NOT conservative
-    (finding F4, rational witness: `a = (1, −1)`, orthogonal phasors) — kept as documentation. -/
-theorem linear_code_unfixed_counterexample :
-    netFeasibleLinear linAggCode [[(1 : ℚ), -1]] [1] 0 0 [[1], [1]] = true ∧
-    netFeasible [[(1 : ℚ), -1]] [1] [1, 0] [0, 1] 0 0 [[1], [1]] = false ∧
-    netLinear [[(1 : ℚ), -1]] [1] 0 0 [[1], [1]] = false := by decide +kernel
-
-/-- the unrepaired algorithm-side linear mode norms across time (finding F5): 4 periods of
-    12 A under a 20 A limit are refused although each period is fine — kept as documentation. -/
-theorem alg_linear_unfixed_counterexample :
-    algLinearCode2 [[(1 : ℚ)]] [20] 0 0 [[12, 12, 12, 12]] = false ∧
-    algLinear2 [[(1 : ℚ)]] [20] 0 0 [[12, 12, 12, 12]] = true ∧
-    netLinear [[(1 : ℚ)]] [20] 0 0 [[12, 12, 12, 12]] = true := by decide +kernel
 
 /-! ### 5. regenerated constants (T1) -/
 
